@@ -597,6 +597,9 @@ fn main() {
     let mut kinds: BTreeMap<String, u64> = BTreeMap::new();
     let mut tags: BTreeMap<String, u64> = BTreeMap::new();
     let mut errmsgs: BTreeMap<String, u64> = BTreeMap::new();
+    // the first cases of the stream are expanded once more after all the others: an expander that carries state from
+    // one expansion to the next (a cache, a counter) answers differently then
+    let mut early: Vec<(Case, String)> = Vec::new();
     read_cases(&args[2], |c| {
         n_cases += 1;
         for t in &c.tags {
@@ -604,6 +607,11 @@ fn main() {
         }
         let r1 = expand_real(&c);
         let r2 = expand_real(&c);
+        if early.len() < 24 {
+            if let Ok(a) = &r1 {
+                early.push((c.clone(), a.to_string()));
+            }
+        }
         let mut mism: Vec<String> = Vec::new();
         let mut push = |seg: i64, label: &str, kind: &str, model: &str, real: &str| {
             mism.push(format!(
@@ -740,6 +748,26 @@ fn main() {
     });
     if mode == "expand" {
         return;
+    }
+    for (c, first) in &early {
+        let again = match expand_real(c) {
+            Ok(t) => t.to_string(),
+            Err(e) => e,
+        };
+        if &again != first {
+            n_bad_cases += 1;
+            *kinds.entry("nondet".into()).or_default() += 1;
+            let _ = writeln!(
+                out,
+                "{{\"id\":{},\"entry\":{},\"args\":{},\"item\":{},\"mismatches\":[{{\"seg\":-1,\"label\":\"*\",\"kind\":\"nondet\",\"model\":{},\"real\":{}}}]}}",
+                esc(&c.id),
+                esc(&c.entry),
+                esc(&c.args),
+                esc(&c.item),
+                esc(&format!("expanded again after {n_cases} other expansions in the same process; the first expansion was: {first}")),
+                esc(&again)
+            );
+        }
     }
     let mut s = String::new();
     let _ = write!(s, "{{\"summary\":true,\"cases\":{n_cases},\"segments\":{n_segs},\"bad_cases\":{n_bad_cases},\"by_label\":{{");
